@@ -674,13 +674,22 @@ func VfH_C06_line_numeric() {
 		return r
 	}
 	// known finding: the one-rune lookahead of "(PR | PO) x (OP | HY) NU" does not skip combining marks (LB9).
-	// The class is exactly: boundary between PR|PO and OP|HY, followed by CM or ZWJ.
+	// The class is exactly: boundary between PR|PO (possibly followed by combining marks) and OP|HY, followed by CM or ZWJ.
 	inClass := make([]bool, n)
 	agree := make([]bool, n)
 	for i := 1; i < n; i++ {
 		agree[i] = (seg.attributes[i]&lineBoundary != 0) == want[i]
 		if i+1 < n {
-			inClass[i] = vfAnd(vfAnd(is(i-1, ucd.BreakPR, ucd.BreakPO), is(i, ucd.BreakOP, ucd.BreakHY)), is(i+1, ucd.BreakCM, ucd.BreakZWJ))
+			// the character left of the boundary, through combining marks (LB9), is PR or PO
+			leftPRPO := false
+			for j := 0; j < i; j++ {
+				onlyMarks := true
+				for k := j + 1; k < i; k++ {
+					onlyMarks = vfAnd(onlyMarks, is(k, ucd.BreakCM, ucd.BreakZWJ))
+				}
+				leftPRPO = vfOr(leftPRPO, vfAnd(is(j, ucd.BreakPR, ucd.BreakPO), onlyMarks))
+			}
+			inClass[i] = vfAnd(vfAnd(leftPRPO, is(i, ucd.BreakOP, ucd.BreakHY)), is(i+1, ucd.BreakCM, ucd.BreakZWJ))
 		}
 		vfAssert(vfOr(inClass[i], agree[i]), "line break opportunity differs from UAX #14 (LB rules)")
 	}
